@@ -104,6 +104,23 @@ func (c *Ctx) typeSwitches(pkgs ...string) []*tySwitch {
 								ts.after = "return-error"
 							}
 						}
+						// `return nil, false`: a probe ("is this node a loop?") says no for every other type
+						if last := ret.Results[len(ret.Results)-1]; len(ret.Results) > 0 {
+							if id, ok := unparen(last).(*ast.Ident); ok && id.Name == "false" && fd.Type.Results != nil {
+								rl := fd.Type.Results.List
+								if rt := info.TypeOf(rl[len(rl)-1].Type); rt != nil && types.Identical(rt.Underlying(), types.Typ[types.Bool]) {
+									ts.after = "return-no"
+								}
+							}
+							// `return nil` of a pointer: "the loop this node is, or none"
+							if len(ret.Results) == 1 && isNilIdent(last) && fd.Type.Results != nil && len(fd.Type.Results.List) == 1 {
+								if rt := info.TypeOf(fd.Type.Results.List[0].Type); rt != nil {
+									if _, isPtr := rt.Underlying().(*types.Pointer); isPtr {
+										ts.after = "return-no"
+									}
+								}
+							}
+						}
 						// `return inst`: the function hands the switched value back unchanged (a transformer, not a consumer)
 						if len(ret.Results) == 1 && fd.Type.Results != nil && len(fd.Type.Results.List) == 1 {
 							if id, ok := unparen(ret.Results[0]).(*ast.Ident); ok && switchSubjectIs(info, sw, id) {
@@ -184,6 +201,8 @@ func ruleTypeSwitchComplete(c *Ctx, rule string, pkgs []string, ifaceFilter func
 				ob.OKnt("produced in " + strings.Join(uniq(p[t]), ", ") + "; handled by a case of the same pointer-ness")
 			} else if !ts.hasDef && ts.after == "return-same" {
 				ob.OK("no case: the function hands such a value back unchanged (it transforms some types and passes the others through)")
+			} else if !ts.hasDef && ts.after == "return-no" {
+				ob.OK("no case: the function is a probe that answers false for the types it does not ask about")
 			} else {
 				alt := strings.TrimPrefix(t, "*")
 				if !strings.HasPrefix(t, "*") {
@@ -223,6 +242,10 @@ func ruleTypeSwitchTotal(c *Ctx, rule string) {
 		info := c.info("bytecode")
 		if !ts.hasDef && ts.after == "return-same" {
 			ob.OK("the function hands an unmatched value back unchanged: it transforms, it does not accept or reject")
+			continue
+		}
+		if !ts.hasDef && ts.after == "return-no" {
+			ob.OK("the function is a probe that answers false for an unmatched value: it does not accept or reject")
 			continue
 		}
 		// semantic decision first: fold the function with a nil node (a nil interface matches no case)
